@@ -133,6 +133,12 @@ class WaitForConditionOperationExecutor(OperationExecutor[T]):
             )
             # For async checkpoint, no immediate response possible
             # Proceed directly to execute with current checkpoint data
+        else:
+            # no checkpoint precedes the check function here: an orphaned branch stops now
+            self.state.ensure_not_orphaned(
+                self.operation_identifier.operation_id,
+                self.operation_identifier.parent_id,
+            )
 
         # Ready to execute check function
         return CheckResult.create_is_ready_to_execute(checkpointed_result)
